@@ -40,7 +40,7 @@ FIELDS = ["names", "kinds", "log_status", "dynamic_equations", "steady_equations
 def gen_portable_case(rng) -> dict:
     H = _H()
     spec = H.gen_spec(rng)
-    nv = rng.choice([1, 1, 2, 3])
+    nv = rng.choice([1, 1, 2, 3, 3, 4, 5])
     import math
     # values that need 16-17 significant digits (quotients, sums like 0.1+0.2, irrational constants): the round trip is exact
     fine_r = [1 / 3, 0.1 + 0.2, 2 / 3, -1 / 7, math.sqrt(2) / 2, 0.7 / 3]
@@ -103,6 +103,10 @@ def portable_case(ctx: Ctx, case: dict):
     except Exception as e:
         ctx.fail("portable-import-raises", case, f"from_portable(to_portable(m)) raises {type(e).__name__}: {str(e)[:200]!r}")
         return m, p
+    # the imported variants are pairwise distinct objects with dicts of their own (alter_num_variants inside from_portable)
+    objs = [id(v) for v in m2._variants] + [id(v.levels) for v in m2._variants] + [id(v.changes) for v in m2._variants]
+    if len(set(objs)) != len(objs):
+        ctx.disagree("portable-import-structure", case, "imported variants share objects", "pairwise distinct variant objects and dicts (expand_adds_distinct_variants, step_owned)")
     got = public_view(m2)
     fields = FIELDS
     if want["flags"] != got["flags"]:
